@@ -4,6 +4,7 @@
 confirms: demo passes on the clean tree, fails with the patch, the test suite still passes."""
 import json, os, shutil, sys
 D = os.path.dirname(os.path.dirname(os.path.abspath(__file__)))
+HIST = json.load(open(os.path.join(D, 'tools', 'seed_history.json')))
 for P in sys.argv[1:]:
     for i in ('1', '2', '3'):
         src = '/tmp/mut_%s/_out/%s' % (P, i)
@@ -35,5 +36,7 @@ for P in sys.argv[1:]:
                     check=dict(command='./check %s --tier quick (VERIF_SEED=0)' % P, exit=int(e['check_exit']), violation_lines=int(e.get('violations', 0)),
                                no_failing_input_found_lines=int(e.get('no_failing_input_found', 0)), broken_obligations=int(e.get('broken', 0)),
                                signatures=[s for s in e.get('signatures', '').split(';') if s], verdict=how))
+        if '%s-%s' % (P, i) in HIST:
+            meta['history'] = HIST['%s-%s' % (P, i)]
         json.dump(meta, open(os.path.join(dst, 'meta.json'), 'w'), indent=1)
         print('%s-%s installed: check exit %s (%s)' % (P, i, e.get('check_exit'), how))
